@@ -613,10 +613,9 @@ def prepare_dump(data: IOData, allow_changes: bool, filename: str) -> IOData:
 
 @document_dump_one(
     "Gaussian Formatted Checkpoint",
-    ["atnums", "atcorenums"],
+    ["atnums", "atcorenums", "atcoords", "nelec"],
     [
         "atcharges",
-        "atcoords",
         "atfrozen",
         "atgradient",
         "athessian",
